@@ -1363,6 +1363,8 @@ class Planner:
     def form_step(self, f, rank, M, kf):
         r = self.rng
         k = r.randrange(10)
+        if M.get("msq") and k >= 8:
+            k = r.randrange(8)
         if k <= 5:
             return self.derive(f, rank, M, keep_failed=kf)
         if k == 6 and r.random() < 0.3:
@@ -1475,6 +1477,46 @@ class Planner:
             kind="result",
         )
 
+    def bfo_forms(self):
+        """Forms whose integrands contain base form operators (ExternalOperator,
+        Interpolate); their derivatives go through the BaseFormOperator rule-sets."""
+        r = self.rng
+        M = self.meshes[0]
+        scal = [c for c in M["coefs"] if self.shape(c) == ()]
+        if not scal or M.get("v") is None:
+            return
+        u = r.choice(scal)
+        V = self._space_of(u)
+        v = M["v"]
+        vs = v if not self.shape(v) else self.call("operator.getitem", self.ref(v), ["t"] + [0] * len(self.shape(v)))
+        if vs is None:
+            return
+        N = self.call("ufl.ExternalOperator", self.ref(u), function_space=self.ref(V))
+        ops_ = [N]
+        if r.random() < 0.6:
+            ops_.append(self.call("ufl.Interpolate", self.ref(u), self.ref(V)))
+        for X in ops_:
+            if X is None:
+                continue
+            e = self.call("operator.mul", self.ref(X), self.ref(vs))
+            if e is not None and r.random() < 0.5:
+                e = self.call("operator.mul", self.ref(u), self.ref(e)) or e
+            kind, m = self.measure(M, kinds=("dx",))
+            F = self.call("operator.mul", self.ref(e), self.ref(m), kind="form") if e is not None and m is not None else None
+            if F is None:
+                continue
+            self.exprs.append(X)
+            self.forms.append((F, 1, 0))
+            for fn in r.sample(["ufl.algorithms.extract_base_form_operators", "ufl.algorithms.expand_derivatives", "deriv", "bfos"], 2):
+                if fn == "deriv":
+                    d = self.call("ufl.derivative", self.ref(F), self.ref(u), kind="form", keep_failed=True)
+                    if d is not None:
+                        self.call("ufl.algorithms.expand_derivatives", self.ref(d), kind="form", keep_failed=True)
+                elif fn == "bfos":
+                    self.emit(["meth", self.new(), self.ref(F), "base_form_operators", []], keep_failed=True)
+                else:
+                    self.call(fn, self.ref(F), keep_failed=True, kind="result")
+
     def pool_program(self):
         """Environment + forms, then a seeded sequence of public algorithm / operator
         steps over the pool (results join the pool)."""
@@ -1489,6 +1531,10 @@ class Planner:
                 self.flat_form(M)
             else:
                 self.form(M, r.choice([0, 1, 1, 2, 2]), self.cfg.get("depth") or r.choice([2, 3, 3]))
+        if r.random() < self.cfg.get("msq_p", 0.08):
+            self.mesh_sequence_form()
+        if r.random() < self.cfg.get("bfo_form_p", 0.15):
+            self.bfo_forms()
         self.baseforms = []
         if r.random() < self.cfg.get("formsum_p", 0.15):
             # base forms that are sums of a form and a cofunction
@@ -1613,7 +1659,7 @@ class Planner:
                         pass
             elif self.exprs:
                 e = r.choice(self.exprs)
-                M = r.choice(self.meshes)
+                M = r.choice([m_ for m_ in self.meshes if not m_.get("msq")])
                 out = self.expr_step(M, e, kf)
                 inputs = [e]
                 if out is not None and out in self.node.slots and isinstance(self.obj(out), Expr):
